@@ -12,6 +12,9 @@ from .common import Acc, relevant_mutations, outcome_sig
 PROP = 'C12'
 ALSO = ('eqref.result_class', 'eqref.value', 'eqref.answer', 'eqref.tree')   # only for the build *after* clean
 
+BFS = {'quick': 3, 'thorough': 4}          # depth of the explicit-state search over arbitrary action sequences (fbmc/bfs.py)
+BFS_CLAUSES = ('clean.', 'eqref.')
+
 
 def spaces(tier):
     small = dict(paths=['a', 'd', 'd/x', 'd/y', 'd/e/z'], bf_modes=['ok', 'rb', 'ra'], sb_modes=['ok', 'rb'])
